@@ -14,6 +14,8 @@ for d in sorted(glob.glob(os.path.join(VERIF, "seeded", "*"))):
     m = json.load(open(mp))
     if "status_on_current_tree" in m:
         continue
+    if sys.argv[1:] and not any(os.path.basename(d).startswith(a) for a in sys.argv[1:]):
+        continue            # optional id prefixes: refresh only those seeds
     r = subprocess.run([sys.executable, os.path.join(VERIF, "tools", "try_seed.py"), os.path.join(d, "patch.diff")], stdout=subprocess.PIPE,
                        stderr=subprocess.STDOUT, text=True)
     t = r.stdout
